@@ -311,8 +311,15 @@ func (b Builder) Defer(kind DoAction, fn Expr, buildCall func(Builder, Expr, ...
 	}
 	id := b.Prog.Val(b.Func.nextDeferID)
 	b.Func.nextDeferID++
+	if kind == DeferAlways && uintptr(self.nextBit) >= unsafe.Sizeof(uintptr(0))*8 {
+		// out of bits: record the statement on the dynamic list instead
+		kind = DeferInLoop
+	}
 	switch kind {
-	case DeferInCond:
+	case DeferInCond, DeferAlways:
+		// An unconditional defer statement needs its bit too: a panic raised
+		// before the statement is reached must not run (or pop the saved
+		// arguments of an earlier defer for) a call that was never deferred.
 		prog = b.Prog
 		next := self.nextBit
 		if uintptr(next) >= unsafe.Sizeof(uintptr(0))*8 {
@@ -322,8 +329,6 @@ func (b Builder) Defer(kind DoAction, fn Expr, buildCall func(Builder, Expr, ...
 		bits := b.Load(self.bitsPtr)
 		nextbit = prog.Val(uintptr(1 << next))
 		b.Store(self.bitsPtr, b.BinOp(token.OR, bits, nextbit))
-	case DeferAlways:
-		// nothing to do
 	case DeferInLoop:
 		// Loop defers rely on a dedicated drain loop inserted below.
 	}
@@ -366,7 +371,7 @@ func (b Builder) DeferTo(owner Function, stack Expr, fn Expr, buildCall func(Bui
 func (b Builder) appendDeferStmt(self *aDefer, kind DoAction, typ Type, buildCall func(Builder, Expr, ...Expr) Expr, fn Expr, args []Expr, nextbit Expr) {
 	self.stmts = append(self.stmts, func(bits Expr) {
 		switch kind {
-		case DeferInCond:
+		case DeferInCond, DeferAlways:
 			// Leaving a run of loop defers; allow the next loop-defer statement
 			// (earlier in source order) to generate its own drainer.
 			self.loopDrainerGenerated = false
@@ -376,11 +381,6 @@ func (b Builder) appendDeferStmt(self *aDefer, kind DoAction, typ Type, buildCal
 			b.IfThen(has, func() {
 				b.callDefer(self, typ, buildCall, fn, args)
 			})
-		case DeferAlways:
-			// Leaving a run of loop defers; allow the next loop-defer statement
-			// (earlier in source order) to generate its own drainer.
-			self.loopDrainerGenerated = false
-			b.callDefer(self, typ, buildCall, fn, args)
 		case DeferInLoop:
 			b.loopDeferDrainer(self)
 		}
